@@ -227,7 +227,7 @@ pub fn gen_case(rng: &mut Rng, thorough: bool) -> GenAf {
             let mut perm: Vec<usize> = (0..n).collect();
             if rng.chance(1, 2) { rng.shuffle(&mut perm); }
             for p in atts.iter_mut() { *p = (perm[p.0], perm[p.1]); }
-            GenAf { build: Build::Iccma(n, atts), recipe: "large" }
+            GenAf { build: Build::Iccma(n, atts), recipe: "hub" }
         } else if long {
             let mut atts: Vec<(usize, usize)> = (0..n - 1).filter(|i| i % 17 != 16).map(|i| (i, i + 1)).collect();
             for _ in 0..rng.below(6) { let a = rng.below(n); let b = rng.below(n); atts.push((a, b)); }
@@ -235,7 +235,7 @@ pub fn gen_case(rng: &mut Rng, thorough: bool) -> GenAf {
             GenAf { build: Build::Iccma(n, atts), recipe: "large" }
         } else { gen_large(rng, n) };
         match to_iccma(&g) {
-            Some((n, a)) => (n, a, "large"),
+            Some((n, a)) => (n, a, if g.recipe == "hub" { "hub" } else { "large" }),
             None => (0, vec![], "empty"),
         }
     };
